@@ -113,6 +113,15 @@ where
         }
     }
 
+    /// Wake every task waiting for a stream ID, they will observe the connection error.
+    fn wake_all(&mut self) {
+        for wakers in &mut self.wakers {
+            for waker in wakers.drain(..) {
+                waker.wake();
+            }
+        }
+    }
+
     pub fn revise_max_streams(
         &mut self,
         zero_rtt_rejected: bool,
@@ -207,6 +216,12 @@ where
     /// but it is very very hard to happen.
     pub fn poll_alloc_sid(&self, cx: &mut Context<'_>, dir: Dir) -> Poll<Option<StreamId>> {
         self.0.lock().unwrap().poll_alloc_sid(cx, dir)
+    }
+
+    /// Called when the connection is closed or failed: wake every task blocked in
+    /// [`poll_alloc_sid`](Self::poll_alloc_sid), no stream ID will ever be granted to them.
+    pub fn wake_all(&self) {
+        self.0.lock().unwrap().wake_all();
     }
 
     pub fn revise_max_streams(
